@@ -142,6 +142,8 @@ def acLine (d : ACDrv) (lineNo : Nat) (ts : List String) : ACDrv × List String 
       let vs :=
         (if ["call", "bet", "raise", "allin"].contains callKind || (callKind == "early" && ["call", "bet", "raise", "allin"].contains ((call.splitOn ":").getD 1 "")) then ["C19.auto-play-volunteered-chips"] else []) ++
         (if callKind == "early" then ["C19.auto-play-acted-before-the-thinking-time-elapsed"] else []) ++
+        -- pass when that is the option: at once, whatever the player's status
+        (if asked && gi ≥ 0 && v.hasAction gi.toNat "pass" && call != "pass:0" then ["C19.pass-not-made-although-it-is-the-option"] else []) ++
         -- a payment is the posted size of the running hand (ante / this position's blind), whatever the table's level is now
         (let payArg : Option Int := match call.splitOn ":" with
             | ["pay", a] => a.toInt?
